@@ -181,6 +181,7 @@ fn run_cfg(report: &mut Report, c: &Cfg, verbose: bool) {
     };
     let _ = take(chain.as_ref());
     let mut prev_pos = start.clone();
+    let mut prev_logp: Option<f64> = None;
     let mut first_esh_draw: Option<u64> = None;
     let (mut n_div, mut n_esh, mut n_retry) = (0u64, 0u64, 0u64);
     let total = c.num_tune + 30;
@@ -309,6 +310,25 @@ fn run_cfg(report: &mut Report, c: &Cfg, verbose: bool) {
                 _ => {}
             }
         }
+        // energy bookkeeping of a microcanonical draw: the reported energy change is the sum of the kinetic energy changes
+        // of all its ESH updates minus the change of the log density (the transformation is fixed within a draw)
+        if uses_esh && expect_esh && !diverging && eshs.len() as u64 == 2 * out.progress.num_steps && n_logp == out.progress.num_steps {
+            if let (Some(lp0), Some(lp1), Some(ec)) = (prev_logp, out.f64("logp"), out.f64("energy_change")) {
+                let ske: f64 = eshs.iter().map(|e| e.delta_ke).sum();
+                let want = ske - (lp1 - lp0);
+                let scale = 1.0 + eshs.iter().map(|e| e.delta_ke.abs()).sum::<f64>() + lp0.abs() + lp1.abs();
+                if !((ec - want).abs() <= 1e-9 * scale) {
+                    report.violation(
+                        sig("energy_change_is_not_the_accumulated_change"),
+                        format!("draw {d} ({} steps): reported energy_change {ec:e}, sum of kinetic energy changes {ske:e} - (logp {lp1} - {lp0}) = {want:e}", out.progress.num_steps),
+                        replay.clone(),
+                    );
+                    return;
+                }
+                report.count("energy_changes_accounted", 1);
+            }
+        }
+        prev_logp = out.f64("logp");
         // unit momentum of the state the next draw starts from (microcanonical mode)
         if expect_esh && uses_esh {
             if let Some(sp) = chain.state_parts() {
